@@ -251,3 +251,102 @@ func narrowAddsIn(c *core.Ctx, r *core.Rule) {
 		r.OK("checksum-helpers/no-narrow-adds", "", fmt.Sprintf("%d additions in the checksum helpers, none in uint8/uint16", nAdd))
 	}
 }
+
+// truncatedOnlyRaised (R3.7 = R16.9): PacketSource.NextPacket may set the
+// packet's Truncated flag from the capture lengths but never lowers it: for an
+// eagerly decoded packet the decoders have already run and may have set it,
+// for a lazy packet they run later and set it again — overwriting the flag
+// makes the two modes disagree.  Every store to Truncated in NextPacket stores
+// the constant true, or `old || x` (a merge whose other edge is the constant
+// true chosen by a test of the old value).
+func truncatedOnlyRaised(c *core.Ctx, r *core.Rule) {
+	p := c.P
+	fn := p.Func("", "PacketSource.NextPacket")
+	if fn == nil || len(fn.Blocks) == 0 {
+		r.Missing("gopacket.(*PacketSource).NextPacket", "not found")
+		return
+	}
+	isTruncLoad := func(v ssa.Value) bool {
+		ld, ok := v.(*ssa.UnOp)
+		if !ok || ld.Op != token.MUL {
+			return false
+		}
+		fa, ok := ld.X.(*ssa.FieldAddr)
+		return ok && core.FieldOfAddr(fa).Name() == "Truncated"
+	}
+	n := 0
+	core.Instrs(fn, func(ins ssa.Instruction) {
+		st, ok := ins.(*ssa.Store)
+		if !ok {
+			return
+		}
+		fa, ok := st.Addr.(*ssa.FieldAddr)
+		if !ok || core.FieldOfAddr(fa).Name() != "Truncated" {
+			return
+		}
+		n++
+		okv := false
+		if b, isK := core.ConstBool(st.Val); isK && b {
+			okv = true
+		}
+		if ph, ok := st.Val.(*ssa.Phi); ok {
+			for i, e := range ph.Edges {
+				if b, isK := core.ConstBool(e); isK && b {
+					pr := ph.Block().Preds[i]
+					if iff, ok := pr.Instrs[len(pr.Instrs)-1].(*ssa.If); ok && isTruncLoad(iff.Cond) && pr.Succs[0] == ph.Block() {
+						okv = true
+					}
+				}
+			}
+		}
+		if bo, ok := st.Val.(*ssa.BinOp); ok && bo.Op == token.OR && (isTruncLoad(bo.X) || isTruncLoad(bo.Y)) {
+			okv = true
+		}
+		r.Check(okv, fmt.Sprintf("%s/truncated-only-raised#%d", core.FnKey(fn), n), p.InstrPos(ins), "Truncated is only raised (old || …)", "NextPacket overwrites the packet's Truncated flag instead of or-ing into it: a truncation that a decoder reported while the packet was decoded eagerly is wiped here, whereas a lazily decoded packet sets it again later — after all layers were requested the two modes disagree on Metadata().Truncated and on the rendered header")
+	})
+	if n < 1 {
+		r.Missing("gopacket.(*PacketSource).NextPacket/Truncated", "no store to Truncated found")
+	}
+}
+
+// mismatchIffInvalid (R8.8 addition): VerifyChecksums records a mismatch
+// exactly for the layers whose own verification says Valid == false.
+func mismatchIffInvalid(c *core.Ctx, r *core.Rule) {
+	p := c.P
+	fn := p.Func("", "packet.VerifyChecksums")
+	if fn == nil || len(fn.Blocks) == 0 {
+		return
+	}
+	var app ssa.Instruction
+	core.Instrs(fn, func(ins ssa.Instruction) {
+		if nm, _ := core.BuiltinCall(ins); nm == "append" {
+			app = ins
+		}
+	})
+	key := core.FnKey(fn) + "/mismatch-iff-not-valid"
+	if app == nil {
+		r.Missing(key, "no append to the mismatch list found")
+		return
+	}
+	ok := false
+	for _, dc := range core.DomConds(app.Block()) {
+		v := dc.V
+		var fld string
+		switch x := v.(type) {
+		case *ssa.UnOp:
+			if x.Op == token.MUL {
+				if fa, isFA := x.X.(*ssa.FieldAddr); isFA {
+					fld = core.FieldOfAddr(fa).Name()
+				}
+			}
+		case *ssa.Field:
+			fld = core.FieldOfVal(x).Name()
+		case *ssa.Extract:
+			fld = ""
+		}
+		if fld == "Valid" && !dc.Truth {
+			ok = true
+		}
+	}
+	r.Check(ok, key, p.InstrPos(app), "a mismatch is recorded exactly under !Valid", "the mismatch list is not filled under the test of the layer's own Valid result: layers that legitimately carry no checksum (UDP with checksum 0, GRE without the checksum bit) report Valid with Actual != Correct and are now listed as mismatches, or invalid ones are skipped")
+}
